@@ -65,46 +65,68 @@ DEVIATIONS = [
 INTERVALS = [(-3, 3), (1, 5), (-4, 0), (0, 0), (-4, 4)]
 
 
+def geometry(S, f):
+    """
+    image sizes and user intervals that keep every level of an S-level factor-f pyramid meaningful: the coarsest
+    image must hold a full window plus interior pixels (7 pixels allow window 5), all residues of the size modulo the
+    factor occur, and the user interval is scaled so that the coarsest level still searches several disparities
+    """
+    k = f ** (S - 1)
+    dims = list(range(7 * k, 7 * k + 6))
+    mult = max(1, k // 2)
+    intervals = [(a * mult, b * mult) for a, b in INTERVALS]
+    return dims, intervals
+
+
 def spaces(tier, seed):
-    small = list(range(8, 14))
-    big = [26, 27, 28, 29]
     lvl0 = []
     for (S, f) in [(2, 2), (3, 2), (2, 3), (3, 3)]:
-        dims = small if f ** (S - 1) <= 4 else big
+        dims, intervals = geometry(S, f)
         if tier == "quick":
             # all row sizes x all col sizes, the interval rotating with the shape so that each shape is seen and
             # each interval is seen with each residue class
+            if (S, f) == (3, 3):
+                dims = dims[:3]
             for r in dims:
                 for c in dims:
-                    iv = INTERVALS[(r * 7 + c + S + f + seed) % len(INTERVALS)]
+                    iv = intervals[(r * 7 + c + S + f + seed) % len(intervals)]
                     lvl0.append(dict(DEFAULT, rows=r, cols=c, S=S, f=f, interval=list(iv), seed=seed))
         else:
             for r in dims:
                 for c in dims:
-                    for iv in INTERVALS:
+                    for iv in intervals:
                         lvl0.append(dict(DEFAULT, rows=r, cols=c, S=S, f=f, interval=list(iv), seed=seed))
-    shapes1 = [(8, 9), (9, 12), (13, 10), (11, 11)] if tier == "quick" else [(8, 9), (9, 12), (13, 10), (11, 11), (12, 8),
-                                                                            (10, 13)]
     lvl1 = []
-    for (r, c) in shapes1:
-        for (S, f) in [(2, 2), (3, 2), (2, 3)]:
+    for (S, f) in [(2, 2), (3, 2), (2, 3)]:
+        dims, intervals = geometry(S, f)
+        b = dims[0]
+        shapes1 = [(b, b + 1), (b + 1, b + 4), (b + 5, b + 2), (b + 3, b + 3)]
+        if tier != "quick":
+            shapes1 += [(b + 4, b), (b + 2, b + 5)]
+        for (r, c) in shapes1:
             for k, v in DEVIATIONS:
-                for iv in ([(-3, 3), (1, 5)] if tier == "quick" else INTERVALS):
+                for iv in (intervals[:2] if tier == "quick" else intervals):
                     lvl1.append(dict(DEFAULT, rows=r, cols=c, S=S, f=f, interval=list(iv), seed=seed, **{k: v}))
     lvl2 = []
-    shapes2 = [(9, 12), (13, 10)] if tier == "quick" else shapes1
-    for (r, c) in shapes2:
-        for (S, f) in ([(2, 2)] if tier == "quick" else [(2, 2), (3, 2), (2, 3)]):
+    for (S, f) in ([(2, 2), (3, 2)] if tier == "quick" else [(2, 2), (3, 2), (2, 3)]):
+        dims, intervals = geometry(S, f)
+        b = dims[0]
+        shapes2 = [(b + 1, b + 4), (b + 5, b + 2)] if (tier != "quick" or S == 2) else [(b + 1, b + 4)]
+        for (r, c) in shapes2:
             for (k1, v1), (k2, v2) in itertools.combinations(DEVIATIONS, 2):
                 if k1 == k2 or {(k1, str(v1)), (k2, str(v2))} == {("bands", "2"), ("pre", "['cbca']")}:
                     continue  # cbca does not support multiband images (outside this property)
-                lvl2.append(dict(DEFAULT, rows=r, cols=c, S=S, f=f, interval=[-3, 3], seed=seed, **{k1: v1, k2: v2}))
+                if S == 3 and tier == "quick" and "validation" not in (k1, k2):
+                    continue  # quick: three scales only paired with a validation step (the right pass)
+                lvl2.append(dict(DEFAULT, rows=r, cols=c, S=S, f=f, interval=list(intervals[0]), seed=seed,
+                                 **{k1: v1, k2: v2}))
     # machine reuse: job B on a machine that already checked and ran job A (every ordered pair of a small set of
     # configurations that differ in marge / factor / scales / window / validation), with and without re-checking
-    base = dict(DEFAULT, rows=9, cols=12, interval=[-3, 3], seed=seed)
+    base = dict(DEFAULT, rows=29, cols=32, interval=[-6, 6], seed=seed)
     variants = [dict(base, S=2, f=2), dict(base, S=2, f=2, marge=0), dict(base, S=2, f=2, marge=2),
                 dict(base, S=3, f=2), dict(base, S=2, f=3), dict(base, S=2, f=2, window=5),
-                dict(base, S=2, f=2, interval=[1, 5]), dict(base, S=3, f=2, marge=2, interval=[-4, 4]),
+                dict(base, S=2, f=2, interval=[2, 10]), dict(base, S=3, f=2, marge=2, interval=[-8, 8]),
+                dict(base, S=3, f=2, validation="post", interval=[-12, 0]),
                 dict(base, S=2, f=2, validation="post"), dict(base, S=2, f=2, pre=["refinement"])]
     reuse = []
     for a in variants:
@@ -380,5 +402,5 @@ def run_case(case):
 
 
 def init_worker():
-    case = dict(DEFAULT, rows=8, cols=9, S=2, f=2, interval=[-3, 3], seed=0)
+    case = dict(DEFAULT, rows=14, cols=15, S=2, f=2, interval=[-3, 3], seed=0)
     run_case(case)
